@@ -24,3 +24,18 @@ for p in props:
     print("| %s | %s | %s / %s | %s | %d | %s | %s |" % (
         pid, "yes" if pid in claimed else "no", len(ev.get("theorems", [])) or "-", len(ev.get("partial_theorems", [])) if ev else "-",
         ev.get("evaluations", "-"), nf, ", ".join(opens) or "-", "%d/%d" % (sum(1 for s in sd if s[1]), len(sd)) if sd else "-"))
+
+print()
+print("### Seeded changes (independent sub-agents, property text only) and which checks report them")
+print()
+print("| seed | what it changes (one line) | needs to manifest | own check | other checks |")
+print("|---|---|---|---|---|")
+for d in sorted(glob.glob(os.path.join(ROOT, "seeded", "*"))):
+    m = json.load(open(os.path.join(d, "meta.json")))
+    sid = os.path.basename(d)
+    mat = m.get("matrix", {})
+    own = mat.get(m["property"]) or ("VIOLATION" if m.get("caught_by") else "silent (MISSED)")
+    if m.get("note") and "missed" in m["note"].lower():
+        own += " (missed by the first version; caught after strengthening)"
+    others = ", ".join("%s: %s" % (k, v) for k, v in mat.items() if k != m["property"]) or "-"
+    print("| %s | %s | %s | %s | %s |" % (sid, m.get("summary", "")[:160].replace("|", "/"), m.get("needs_to_manifest", "")[:140].replace("|", "/"), own, others))
